@@ -275,10 +275,34 @@ func stripLogging(fd *ast.FuncDecl) *ast.FuncDecl {
 		return ok && id.Name == "logging"
 	}
 	var walk func(s ast.Stmt) ast.Stmt
+	// a logging statement is dropped, unless its arguments contain calls: then it is replaced by a
+	// marker naming the callees, so that message texts may change freely but a new call smuggled
+	// into a log statement (e.g. one that takes a lock) moves the fingerprint
+	logMarker := func(s ast.Stmt) ast.Stmt {
+		var callees []string
+		ast.Inspect(s.(*ast.ExprStmt).X.(*ast.CallExpr), func(n ast.Node) bool {
+			if ce, ok := n.(*ast.CallExpr); ok {
+				var b bytes.Buffer
+				printer.Fprint(&b, token.NewFileSet(), ce.Fun)
+				if !strings.HasPrefix(b.String(), "logging.") {
+					callees = append(callees, b.String())
+				}
+			}
+			return true
+		})
+		if len(callees) == 0 {
+			return nil
+		}
+		sort.Strings(callees)
+		return &ast.ExprStmt{X: &ast.CallExpr{Fun: ast.NewIdent("__log_calls"), Args: []ast.Expr{&ast.BasicLit{Kind: token.STRING, Value: strconv.Quote(strings.Join(callees, ","))}}}}
+	}
 	strip = func(list []ast.Stmt) []ast.Stmt {
 		var out []ast.Stmt
 		for _, s := range list {
 			if isLog(s) {
+				if m := logMarker(s); m != nil {
+					out = append(out, m)
+				}
 				continue
 			}
 			out = append(out, walk(s))
